@@ -40,6 +40,9 @@ RULES = {
     "C08-N1": "the number of coefficients allocated for a COO assembly covers the entries emitted (slots distinct, counter advanced once per entry)",
     "C08-T1": "parallel transport tables of the face / edge connections are antisymmetric: T[(a,b)] + T[(b,a)] = 0, both stored in the same block",
     "C08-D1": "cotan_edge_diagonal: the inverse branch is 1/x of the direct branch; the two half weights come from the two sides of the edge",
+    "C08-W1": "every evaluation / read of cotangent data in laplacian, laplacian_edges, laplacian_triangles is controlled by the `cotan` option "
+              "(the uniform-weight branch never reads the cached \"cotan\" attribute)",
+    "C08-E1": "per-edge operators visit the faces on both sides of each edge independently (no break / return / nesting between the sides)",
     "C08-B1": "local bases are right handed (Y = normal x X, faces: (X, Y) of face_basis), project returns (X.V, Y.V), edge angles are atan2(E.Y, E.X) in one basis",
 }
 
@@ -63,6 +66,8 @@ def run(ctx):
     t1_transport(ctx)
     d1_inverse_branch(ctx)
     b1_local_bases(ctx)
+    w1_option_dominance(ctx)
+    e1_edge_sides(ctx)
 
 
 # ----------------------------------------------------------------------- stencil units
@@ -429,14 +434,8 @@ def _edge_loop(loop):
     return None
 
 
-def s3_adjacency(ctx):
-    fn = ctx.repo.func(ADJ, "adjacency_matrix")
-    site = ctx.site(ADJ, fn)
-    b = sym.Bindings(fn)
-    arrays, ctor = H.coo_arrays(fn)
-    if not arrays:
-        ctx.fail("C08-S3", site, "adjacency_matrix: sparse constructor `coo_matrix((vals, (rows, cols)))` not found", "")
-    else:
+def _adjacency_looped(ctx, fn, site, b, arrays):
+    if True:
         d, r, c = arrays
         # stores per array, per enclosing loop
         stores = {d: [], r: [], c: []}
@@ -494,7 +493,145 @@ def s3_adjacency(ctx):
                 pr.append(f"the two entries of an edge receive different / missing weights (slots {sorted(sl)})")
             ctx.check(not pr, "C08-S3", bsite, "adjacency_matrix: " + "; ".join(pr),
                       "both entries (i,j) and (j,i) of an edge carry the same weight", note="equal weights at 2e and 2e+1")
-        ctx.require_count("C08-S3 adjacency weight branches", nb, 3)
+        if nb < 3:
+            ctx.fail("C08-S3", site, f"adjacency_matrix: {nb} weight branch(es) building `{d}` found instead of the three options (one / length / custom dict)", "")
+
+
+# -- vectorised layouts of the adjacency triples -------------------------------------------------
+def _edge_table(e):
+    """is e the |E| x 2 integer table of the edges?  (np.array(mesh.edges).reshape((m, 2)) and the like)"""
+    while isinstance(e, ast.Call) and isinstance(e.func, ast.Attribute) and e.func.attr in ("reshape", "astype", "copy"):
+        if e.func.attr == "reshape":
+            shp = e.args[0] if len(e.args) == 1 else ast.Tuple(elts=list(e.args), ctx=ast.Load())
+            if not (isinstance(shp, ast.Tuple) and len(shp.elts) == 2 and au.const(shp.elts[1]) == 2):
+                return False
+        e = e.func.value
+    return isinstance(e, ast.Call) and au.call_tail(e) in ("array", "asarray") and e.args and au.chain(e.args[0]) is not None \
+        and au.chain(e.args[0])[-1] == "edges"
+
+
+def _layout(e):
+    """abstract layout of a vectorised expression over the edge table E:
+    ('cols', (i, j)) = E with its columns ordered i, j; ('col', i); ('inter', i, j) = [c_i[0], c_j[0], c_i[1], c_j[1], ...];
+    ('block', i, j) = [c_i..., c_j...]; None = not recognised"""
+    if _edge_table(e):
+        return ("cols", (0, 1))
+    if isinstance(e, ast.Subscript) and isinstance(e.slice, ast.Tuple) and len(e.slice.elts) == 2:
+        base = _layout(e.value)
+        rows, col = e.slice.elts
+        if base and base[0] == "cols" and isinstance(rows, ast.Slice) and rows.lower is None and rows.upper is None and rows.step is None:
+            if isinstance(col, ast.Slice) and col.lower is None and col.upper is None and au.const(col.step) == -1:
+                return ("cols", base[1][::-1])
+            k = au.literal(col)
+            if isinstance(k, int) and k in (0, 1, -1, -2):
+                return ("col", base[1][k])
+            if isinstance(k, list) and sorted(k) == [0, 1]:
+                return ("cols", tuple(base[1][i] for i in k))
+    if isinstance(e, ast.Call):
+        t = au.call_tail(e)
+        if t in ("fliplr",) and len(e.args) == 1:
+            base = _layout(e.args[0])
+            return ("cols", base[1][::-1]) if base and base[0] == "cols" else None
+        if t == "flip" and len(e.args) >= 1 and any(k.arg == "axis" and au.const(k.value) in (1, -1) for k in e.keywords):
+            base = _layout(e.args[0])
+            return ("cols", base[1][::-1]) if base and base[0] == "cols" else None
+        if t in ("flatten", "ravel") and isinstance(e.func, ast.Attribute) and not e.args:
+            base = _layout(e.func.value)
+            return ("inter",) + base[1] if base and base[0] == "cols" else None
+        if t == "reshape" and isinstance(e.func, ast.Attribute) and len(e.args) == 1 and au.const(e.args[0]) == -1:
+            base = _layout(e.func.value)
+            return ("inter",) + base[1] if base and base[0] == "cols" else None
+        if t in ("concatenate", "hstack") and len(e.args) >= 1 and isinstance(e.args[0], (ast.Tuple, ast.List)) and len(e.args[0].elts) == 2:
+            parts = [_layout(x) for x in e.args[0].elts]
+            if all(p and p[0] == "col" for p in parts):
+                return ("block", parts[0][1], parts[1][1])
+        if t in ("astype", "copy") and isinstance(e.func, ast.Attribute):
+            return _layout(e.func.value)
+    return None
+
+
+def _value_layout(e):
+    """'inter' for np.repeat(w, 2), 'block' for np.tile(w, 2) / concatenate((w, w))"""
+    if isinstance(e, ast.Call):
+        t = au.call_tail(e)
+        if t == "repeat" and len(e.args) == 2 and au.const(e.args[1]) == 2:
+            return "inter", e.args[0]
+        if t == "tile" and len(e.args) == 2 and au.const(e.args[1]) == 2:
+            return "block", e.args[0]
+        if t in ("concatenate", "hstack") and e.args and isinstance(e.args[0], (ast.Tuple, ast.List)) and len(e.args[0].elts) == 2 \
+                and au.same(e.args[0].elts[0], e.args[0].elts[1]):
+            return "block", e.args[0].elts[0]
+    return None
+
+
+def _adjacency_vectorised(ctx, fn, site, b, arrays, ctor):
+    d, r, c = arrays
+    at = ctor
+    lr, lc = _layout(b.resolve(ast.Name(id=r, ctx=ast.Load()), at=at)), _layout(b.resolve(ast.Name(id=c, ctx=ast.Load()), at=at))
+    vl = _value_layout(b.resolve(ast.Name(id=d, ctx=ast.Load()), at=at))
+    if lr is None or lc is None or vl is None:
+        what = [n for n, l in ((r, lr), (c, lc), (d, vl)) if l is None]
+        ctx.fail("C08-S3", site, f"adjacency_matrix: neither per-edge stores at slots 2*e, 2*e+1 nor a recognised vectorised layout found for {', '.join(what)}",
+                 "the two entries (a,b) and (b,a) of every edge and their common weight can no longer be related")
+        return
+    ok = lr[0] == lc[0] and lr[0] in ("inter", "block") and lr[1:] == lc[1:][::-1] and lr[1] != lr[2]
+    ctx.check(ok, "C08-S3", site, f"adjacency_matrix: rows are laid out as {lr} and cols as {lc}: expected the same layout with the two endpoint columns swapped",
+              "M[i,j] = M[j,i] = w for every edge (i,j): both transposed positions must be written", note=f"rows {lr} / cols {lc}")
+    ctx.check(vl[0] == lr[0], "C08-S3", site, f"adjacency_matrix: values are laid out per edge as `{vl[0]}` but rows / cols as `{lr[0]}`",
+              "the two entries of an edge must carry that edge's weight", note=f"values follow the {lr[0]} layout: both entries of an edge share its weight")
+
+
+def _weights_lookup(ctx, fn, site):
+    """custom weights are a dict edge id -> weight: every data read must be a lookup by the id of an edge"""
+    if "weights" not in au.params(fn):
+        ctx.fail("C08-S3", site, "adjacency_matrix: the `weights` option not found", "")
+        return
+    m = ctx.repo.module(ADJ)
+    K = H.Kinds(ctx.repo, m.name, fn, H.make_attr_func_kind(ctx.repo, m.name))
+    keyed = 0
+    for n in au.walk(fn):
+        if not (isinstance(n, ast.Name) and n.id == "weights" and isinstance(n.ctx, ast.Load)):
+            continue
+        par = au.parent(n)
+        if isinstance(par, ast.Compare) or (isinstance(par, ast.Call) and au.call_tail(par) == "isinstance"):
+            continue
+        idx = None
+        if isinstance(par, ast.Subscript) and par.value is n:
+            idx = par.slice
+        elif isinstance(par, ast.Attribute) and par.attr == "get" and isinstance(au.parent(par), ast.Call) and au.parent(par).args:
+            idx = au.parent(par).args[0]
+        if idx is not None:
+            k = K.kind(idx, K._scope_of(par))
+            keyed += 1
+            ctx.check(k == "edges", "C08-S3", ctx.site(ADJ, fn, par),
+                      f"adjacency_matrix: custom weight `{au.src(par)}` is looked up with `{au.src(idx)}`, which is not known to be the id of an edge"
+                      + (f" (it is an id of {k})" if isinstance(k, str) else ""),
+                      "weights is a dict edge_id -> weight", note="custom weight looked up by edge id")
+        else:
+            use = au.src(au.parent(par)) if isinstance(par, ast.Attribute) else au.src(par)
+            ctx.fail("C08-S3", ctx.site(ADJ, fn, n), f"adjacency_matrix: custom weights are read through `{use[:80]}` instead of a lookup `weights[e]` by the id of the edge being emitted",
+                     "weights is a dict edge_id -> weight: taking its values in iteration (insertion) order attaches them to the wrong edges as soon as the "
+                     "dict was not filled in increasing edge order")
+    if keyed == 0:
+        ctx.fail("C08-S3", site, "adjacency_matrix: lookup `weights[e]` of the custom weight of an edge not found",
+                 "the custom dict option must read the weight of each edge under that edge's id")
+
+
+def s3_adjacency(ctx):
+    fn = ctx.repo.func(ADJ, "adjacency_matrix")
+    site = ctx.site(ADJ, fn)
+    b = sym.Bindings(fn)
+    arrays, ctor = H.coo_arrays(fn)
+    _weights_lookup(ctx, fn, site)
+    if not arrays:
+        ctx.fail("C08-S3", site, "adjacency_matrix: sparse constructor `coo_matrix((vals, (rows, cols)))` not found", "")
+    else:
+        has_stores = any(isinstance(s, ast.Assign) and len(s.targets) == 1 and isinstance(s.targets[0], ast.Subscript)
+                         and isinstance(s.targets[0].value, ast.Name) and s.targets[0].value.id in arrays[1:] for s in au.stmts(fn.body))
+        if has_stores:
+            _adjacency_looped(ctx, fn, site, b, arrays)
+        else:
+            _adjacency_vectorised(ctx, fn, site, b, arrays, ctor)
     # vertex_to_edge_operator
     fn = ctx.repo.func(ADJ, "vertex_to_edge_operator")
     site = ctx.site(ADJ, fn)
@@ -951,7 +1088,8 @@ def n1_allocation(ctx):
         if name in ("adjacency_matrix",):
             # fixed slots 2*e+k over the edges
             for arr in st.arrays:
-                allocs = [(v, s) for s in au.stmts(fn.body) for nm, v in sym.split_assign(s) if nm == arr and isinstance(v, ast.Call) and v.args]
+                allocs = [(v, s) for s in au.stmts(fn.body) for nm, v in sym.split_assign(s) if nm == arr and isinstance(v, ast.Call) and v.args
+                          and au.call_tail(v) in ("zeros", "ones", "empty", "full")]
                 for v, s in allocs:
                     n += 1
                     size = _len_atom(b, v.args[0], s)
@@ -1159,3 +1297,69 @@ def b1_local_bases(ctx):
         fn = ctx.repo.func(CONN, "SurfaceConnectionFaces._initialize")
         ctx.fail("C08-B1", ctx.site(CONN, fn), "SurfaceConnectionFaces: the two edge angles atan2(E . Y, E . X) of an interior edge not found", "")
     ctx.require_count("C08-B1 basis sites", n, 4)
+
+
+# ----------------------------------------------------------------------- C08-W1
+def _holds(guards, name, notnone=()):
+    """is the option `name` known to be true at a node with these guards (or one of `notnone` known to be not None)?"""
+    for t, pol in guards:
+        conj = t.values if isinstance(t, ast.BoolOp) and isinstance(t.op, ast.And) else [t]
+        if pol:
+            for x in conj:
+                if isinstance(x, ast.Name) and x.id == name:
+                    return True
+                if isinstance(x, ast.Compare) and len(x.ops) == 1 and isinstance(x.ops[0], ast.IsNot) and isinstance(x.left, ast.Name) \
+                        and x.left.id in notnone and au.const(x.comparators[0], 0) is None:
+                    return True
+        else:
+            if isinstance(t, ast.UnaryOp) and isinstance(t.op, ast.Not) and isinstance(t.operand, ast.Name) and t.operand.id == name:
+                return True
+            if isinstance(t, ast.Compare) and len(t.ops) == 1 and isinstance(t.ops[0], ast.Is) and isinstance(t.left, ast.Name) \
+                    and t.left.id in notnone and au.const(t.comparators[0], 0) is None:
+                return True
+    return False
+
+
+def w1_option_dominance(ctx):
+    """the uniform-weight branch must not read cotangent data: every evaluation of a source of cotangents
+    (cached "cotan" attribute, cotangent(mesh), cotan_edge_diagonal(mesh)) is controlled by the `cotan` option"""
+    for name in ("laplacian", "laplacian_edges", "laplacian_triangles"):
+        fn = ctx.repo.func(LAP, name)
+        site = ctx.site(LAP, fn)
+        if "cotan" not in au.params(fn):
+            ctx.fail("C08-W1", site, f"{name}: the `cotan` option not found", "")
+            continue
+        sources = []
+        for c in au.calls(fn):
+            t = au.call_tail(c)
+            if t == "get_attribute" and c.args and au.const(c.args[0]) == "cotan":
+                sources.append(c)
+            elif t in ("cotangent", "cotan_edge_diagonal"):
+                sources.append(c)
+        if not sources:
+            ctx.fail("C08-W1", site, f"{name}: source of the cotangent weights (cached \"cotan\" attribute / cotangent() / cotan_edge_diagonal()) not found",
+                     "the cotan=True branch must take its weights from the corner cotangents")
+            continue
+        holders = set()
+        for c in sources:
+            st = au.enclosing_stmt(c)
+            if isinstance(st, ast.Assign) and st.value is c:
+                holders |= {t.id for t in st.targets if isinstance(t, ast.Name)}
+        for c in sources:
+            ctx.check(_holds(au.guards(c), "cotan"), "C08-W1", ctx.site(LAP, fn, c),
+                      f"{name}: `{au.src(c)}` is evaluated whatever the value of the `cotan` option",
+                      "with cotan=False the operator must have uniform weights; if cotangent data is fetched regardless (e.g. because a cached "
+                      "\"cotan\" attribute exists) the result depends on what was computed on the mesh before",
+                      note=f"{name}: `{au.src(c)[:40]}` only under cotan=True")
+        for n in au.walk(fn):
+            if isinstance(n, ast.Subscript) and isinstance(n.value, ast.Name) and n.value.id in holders and isinstance(n.ctx, ast.Load):
+                ctx.check(_holds(au.guards(n), "cotan", holders), "C08-W1", ctx.site(LAP, fn, n),
+                          f"{name}: cotangent value `{au.src(n)}` is read outside the control of the `cotan` option",
+                          "the uniform-weight branch must not use cotangents", note=f"{name}: `{au.src(n)[:30]}` read under cotan")
+
+
+# ----------------------------------------------------------------------- C08-E1
+def e1_edge_sides(ctx):
+    from .c07 import edge_sides_rule
+    n = edge_sides_rule(ctx, "C08-E1", [(LAP, "cotan_edge_diagonal"), (MASS, "area_weight_matrix_edges"), (CONN, "SurfaceConnectionEdges._initialize")])
+    ctx.require_count("C08-E1 two-sided edge loops", n, 1)
